@@ -885,7 +885,15 @@ def run_session(prop: str, spec: dict, rng: random.Random, nops: int, res: Resul
                 if kind == "enable" and accepted:
                     for k in op["keys"]:
                         frozen.pop(k, None)
-            elif accepted:
+            else:
+                # elements that no longer exist are no longer "the same node/edge" (a refused call
+                # can remove one too: with the tracklet feature off a rollback may not be possible)
+                for k, vals in frozen.items():
+                    for x in list(vals):
+                        gone = (not tracks.graph.has_edge(*x)) if k == F.K_IOU else (x not in tracks.graph)
+                        if gone:
+                            vals.pop(x)
+            if kind not in ("enable", "disable") and accepted:
                 for k, vals in frozen.items():
                     for x, v in list(vals.items()):
                         if k == F.K_IOU:
